@@ -221,6 +221,29 @@ def h_settings(key):
     return fn
 
 
+PARSE_ENTRY_INVALID = [{"NO_SUCH_SETTING": 1}, {"PREFER_DATES_FROM": "sideways"}, {"STRICT_PARSING": 0}, {"TO_TIMEZONE": False},
+                       {"NORMALIZE": 1}, {"CACHE_SIZE_LIMIT": 1000.0}, {"NO_SUCH_SETTING": 1, "NORMALIZE": True, "STRICT_PARSING": False}]
+
+
+def h_parse_entry(idx):
+    """the top-level dateparser.parse() (module-level parser, its own short cuts): an invalid setting is rejected whatever
+    the date string is - blank strings included - with and without languages"""
+    def fn():
+        n = C.ns()
+        v = {"a": C.field("a", 0, 99)}
+        st = PARSE_ENTRY_INVALID[idx]
+        bad = []
+        for s in ("", "   ", "\t\n", tmpl([("a", 2), " days ago"], v), tmpl([("a", 2), "/03/2015"], v)):
+            for kw in ({}, {"languages": ["en"]}, {"locales": ["en-GB"]}):
+                try:
+                    n.dateparser.parse(s, settings=dict(st), **kw)
+                    bad.append((repr(s) if isinstance(s, str) else "<symbolic>", sorted(kw)))
+                except n.CONF.SettingValidationError:
+                    pass
+        return C.outcome(not bad, dict(v), "parse-entry", {"accepted": bad[:5]})
+    return fn
+
+
 # ------------------------------------------------------------------------------------------------ task lists
 def tasks(tier, seed):
     out = []
@@ -250,6 +273,8 @@ def tasks(tier, seed):
             add("total:%s:%s:%s>%s" % (t, bk, tz, to), "h_total", {"template": t, "base_kind": bk, "tz": tz, "to_tz": to,
                                                                    "parsers": parsers, "aware": [None, True, False][(i + seed) % 3]},
                 90)
+    for i in (range(len(PARSE_ENTRY_INVALID)) if not quick else [seed % len(PARSE_ENTRY_INVALID), (seed + 3) % len(PARSE_ENTRY_INVALID), 6]):
+        add("parse-entry:%d" % i, "h_parse_entry", {"idx": i}, 60)
     # every parser kind in the LAST position of PARSERS (what the last parser reports when nothing matches must not leak)
     ALLP = ["timestamp", "negative-timestamp", "relative-time", "custom-formats", "absolute-time", "no-spaces-time"]
     plists = [[p for p in ALLP if p != last][(seed + k) % 5:][:2] + [last] for k, last in enumerate(ALLP)]
@@ -297,6 +322,8 @@ def build_spec(task, viol):
     a = task["args"]
     if task["fn"] == "h_settings":
         return {"task": task["name"], "fn": "h_settings", "key": a["key"], "witness": w}
+    if task["fn"] == "h_parse_entry":
+        return {"task": task["name"], "fn": "h_parse_entry", "idx": a["idx"], "witness": w}
     if task["fn"] == "h_soup":
         idx = [a["first"]] + ([a["second"]] if a.get("second") is not None else [])
         while len(idx) < a["k"]:
@@ -338,6 +365,22 @@ def build_spec(task, viol):
 
 def native_check(spec):
     from symx import native
+    if spec["fn"] == "h_parse_entry":
+        dateparser = native.import_repo()
+        from dateparser.conf import SettingValidationError
+        st = PARSE_ENTRY_INVALID[spec["idx"]]
+        a_ = spec["witness"].get("a", 1)
+        bad = []
+        for s in ("", "   ", "\t\n", "%02d days ago" % a_, "%02d/03/2015" % a_):
+            for kw in ({}, {"languages": ["en"]}, {"locales": ["en-GB"]}):
+                try:
+                    r = dateparser.parse(s, settings=dict(st), **kw)
+                    bad.append("parse(%r, settings=%r%s) -> %r (no SettingValidationError)" % (s, st, "".join(", %s=%r" % i for i in kw.items()), r))
+                except SettingValidationError:
+                    pass
+                except Exception as e:  # noqa
+                    bad.append("parse(%r, settings=%r) raised %s" % (s, st, type(e).__name__))
+        return {"violates": bool(bad), "detail": "invalid setting accepted by the top-level parse(): " + "; ".join(bad[:3])}
     if spec["fn"] == "h_settings":
         native.import_repo()
         from dateparser.date import DateDataParser
